@@ -499,7 +499,9 @@ def k3(rep, src, T):
     if len(comb) != 1 or not is_call_to(comb[0], "Expr::and", "Self::and"):
         rep.violation("K3", "Expr::and_iter@and", "and_iter does not fold with Expr::and", g.where())
     # Expr::filter_column
-    g = src.one_fn(name="filter_column", file="expr/mod.rs", self_ty="Expr")
+    from .canon import canon_view
+
+    g = canon_view(src.one_fn(name="filter_column", file="expr/mod.rs", self_ty="Expr"), src, lets=False)  # private helpers (e.g. an extracted `and_with`) are read through
     genv = FnEnv(g)
     ps = [n for n, _ in genv.params]
     if len(ps) != 4:
